@@ -26,6 +26,24 @@ instance : Monad M where
 @[inline] def throwE {α} (code : String) : M α := fun w => (.error (.err code), w)
 @[inline] def panicE {α} (code : String) : M α := fun w => (.error (.panic code), w)
 
+/-- `if c then return error` as a statement (keeps functions linear chains of binds, without join points) -/
+def guardE (c : Prop) [Decidable c] (code : String) : M Unit := if c then throwE code else pure ()
+
+/-- a field that must not be nil: error `code` otherwise -/
+def requireSome {α} (x : Option α) (code : String) : M α :=
+  match x with
+  | some a => pure a
+  | none => throwE code
+
+/-- a field whose nil value makes the Go code panic (nil `LegacyDec` dereference) -/
+def requireSomeP {α} (x : Option α) : M α :=
+  match x with
+  | some a => pure a
+  | none => panicE "nil"
+
+/-- `if c then panic` as a statement -/
+def guardP (c : Prop) [Decidable c] (code : String) : M Unit := if c then panicE code else pure ()
+
 /-- run `m`; on an ordinary error continue with `none` (used where Go ignores or inspects `err`) -/
 @[inline] def tryCatchErr {α} (m : M α) : M (Except Err α) := fun w =>
   match m w with
@@ -55,7 +73,7 @@ def setBalance (a : Acct) (d : Denom) (x : Int) : M Unit :=
 def sendCoin (src dst : Acct) (d : Denom) (x : Int) : M Unit := do
   let w ← getW
   let b := bankBalance w src d
-  if b < x then throwE "insufficient_funds"
+  guardE (b < x) "insufficient_funds"
   setBalance src d (b - x)
   let w ← getW
   setBalance dst d (bankBalance w dst d + x)
@@ -65,7 +83,7 @@ def sendCoins (src dst : Acct) (cs : Coins) : M Unit := do
   forEachM (fun (c : Denom × Int) => do
       let w ← getW
       let b := bankBalance w src c.1
-      if b < c.2 then throwE "insufficient_funds"
+      guardE (b < c.2) "insufficient_funds"
       setBalance src c.1 (b - c.2)) cs
   forEachM (fun (c : Denom × Int) => do
       let w ← getW
@@ -79,7 +97,7 @@ def mintCoin (acct : Acct) (d : Denom) (x : Int) : M Unit := do
 def burnCoin (acct : Acct) (d : Denom) (x : Int) : M Unit := do
   let w ← getW
   let b := bankBalance w acct d
-  if b < x then throwE "insufficient_funds"
+  guardE (b < x) "insufficient_funds"
   setBalance acct d (b - x)
   modifyW fun w => { w with supply := AL.set w.supply d (supplyOf w d - x) }
 
@@ -92,8 +110,8 @@ def withdrawRewards (v : ValId) : M Coins := do
   match w.oracle with
   | [] => throwE "oracle_exhausted"
   | (v', cs) :: rest =>
-    if v' ≠ v then throwE "oracle_mismatch"
-    setW { w with oracle := rest }
+    guardE (v' ≠ v) "oracle_mismatch"
+    modifyW fun w => { w with oracle := rest }
     sendCoins accDistr accModule cs
     pure cs
 
